@@ -604,6 +604,7 @@ func c13Main(args []string) {
 	base := fs.String("dir", "/verif/.work/C13/runs", "scratch")
 	seed := fs.Int64("seed", 1, "seed")
 	histories := fs.Int("histories", 2, "number of seeded histories")
+	rsched := fs.String("rsched", "cut-during-monitoring,release-while-disconnected,release-with-executor-gone", "remote fault schedules (RemoteUnit.tla) to run")
 	stormRounds := fs.Int("storm", 12, "rounds of the status poll storm")
 	inprocBin := fs.String("inproc-bin", "", "receptor-inproc binary (histories with odd index use it and its in-process work type)")
 	nops := fs.Int("ops", 14, "operations per client")
@@ -629,6 +630,14 @@ func c13Main(args []string) {
 			all = append(all, files...)
 			mu.Unlock()
 		}(h)
+	}
+	var scheds []*schedResult
+	if *rsched != "" {
+		wg.Add(1)
+		go func() {
+			defer wg.Done()
+			scheds = remoteSchedules(res, *bin, *base, "C13", strings.Split(*rsched, ","), *seed)
+		}()
 	}
 	wg.Add(1)
 	go func() {
@@ -688,6 +697,9 @@ func c13Main(args []string) {
 	}
 	normFile := filepath.Join(*base, "sf_trace.ndjson")
 	_ = sftrace.WriteNorm(normFile, norm)
+	rwFile := filepath.Join(*base, "rw_trace.ndjson")
+	res.Extra["rw_trace_file"], res.Extra["rw_trace_events"] = rwFile, writeRWTraces(rwFile, scheds)
+	res.Extra["remote_schedules"] = scheds
 	unitFile := filepath.Join(*base, "unit_trace.ndjson")
 	if f, err := os.Create(unitFile); err == nil {
 		enc := json.NewEncoder(f)
